@@ -13,6 +13,8 @@ pub enum SpiOp {
     Cmd { cmd: u8, args: Vec<u8> },
     /// RAMWR then `count` generated pixels
     Pixels { count: u32, seed: u32 },
+    /// as Pixels, but the iterator is not fused: polled again after its end it yields poison pixels
+    PixelsNonFused { count: u32, seed: u32 },
     /// RAMWR then one pixel `count` times
     Repeat { pixel: Vec<u8>, count: u32 },
 }
@@ -21,7 +23,8 @@ pub enum SpiOp {
 pub struct SpiCase {
     /// bytes per pixel, 1..=4
     pub n: u8,
-    pub buf: u16,
+    /// staging buffer length in bytes (also beyond 65535: frame-sized buffers)
+    pub buf: u32,
     pub ops: Vec<SpiOp>,
 }
 
@@ -76,6 +79,36 @@ fn exec<const N: usize>(case: &SpiCase, info: &mut CaseInfo) -> Result<(), Strin
                     }))
                 })
             }
+            SpiOp::PixelsNonFused { count, seed } => {
+                expected.push((false, 0x2C));
+                for k in 0..*count {
+                    let p = px_bytes(*seed, k, N);
+                    expected.extend(p[..N].iter().map(|b| (true, *b as u16)));
+                }
+                let b = *count as u64 * N as u64;
+                allowed = 2 + b / usable + 1;
+                w.borrow_mut().op_budget = ops0 + 2 + allowed + 8;
+                let (seed, count) = (*seed, *count);
+                let mut k = 0u32;
+                let mut ended = false;
+                let it = core::iter::from_fn(move || {
+                    if k < count && !ended {
+                        let p = px_bytes(seed, k, N);
+                        let mut a = [0u8; N];
+                        a.copy_from_slice(&p[..N]);
+                        k += 1;
+                        Some(a)
+                    } else if !ended {
+                        ended = true;
+                        None
+                    } else {
+                        // the stream is over; a consumer that polls again gets poison
+                        Some([0xEE; N])
+                    }
+                });
+                info.label("non-fused-stream");
+                di.send_command(0x2C, &[]).and_then(|_| di.send_pixels(it))
+            }
             SpiOp::Repeat { pixel, count } => {
                 expected.push((false, 0x2C));
                 let mut a = [0u8; N];
@@ -93,6 +126,7 @@ fn exec<const N: usize>(case: &SpiCase, info: &mut CaseInfo) -> Result<(), Strin
         let what = match op {
             SpiOp::Cmd { .. } => "send_command".to_string(),
             SpiOp::Pixels { count, .. } => format!("send_pixels({} pixels)", count),
+            SpiOp::PixelsNonFused { count, .. } => format!("send_pixels({} pixels, non-fused iterator)", count),
             SpiOp::Repeat { count, .. } => format!("send_repeated_pixel(count={})", count),
         };
         if wb.budget_hit {
@@ -131,7 +165,7 @@ fn exec<const N: usize>(case: &SpiCase, info: &mut CaseInfo) -> Result<(), Strin
         }
         // classification
         match op {
-            SpiOp::Pixels { count, .. } | SpiOp::Repeat { count, .. } => {
+            SpiOp::Pixels { count, .. } | SpiOp::PixelsNonFused { count, .. } | SpiOp::Repeat { count, .. } => {
                 let c = *count as u64;
                 if c == 0 {
                     info.label("count==0");
@@ -155,6 +189,9 @@ fn exec<const N: usize>(case: &SpiCase, info: &mut CaseInfo) -> Result<(), Strin
                 }
             }
         }
+    }
+    if case.buf > 65_535 {
+        info.label("buffer>64KiB");
     }
     if case.buf as usize % N != 0 {
         info.label("buf%N!=0");
@@ -190,16 +227,20 @@ fn count_strategy(cap: u32) -> BoxedStrategy<u32> {
         1 => (1u32..=6).prop_map(move |k| (k * cap).saturating_sub(1)),
         4 => 0u32..=(6 * cap + 3).min(4000),
     ]
+    .prop_map(move |c| if cap > 40_000 { c.min(3 * cap + 2) } else { c })
     .boxed()
 }
 
 pub fn strategy(exclude_zero_repeat: bool) -> BoxedStrategy<SpiCase> {
     (1u8..=4)
-        .prop_flat_map(|n| (Just(n), crate::gen::spi_buf(n as u16)))
+        .prop_flat_map(|n| {
+            let big = proptest::sample::select(vec![65_535u32, 65_536, 65_537, 70_000, 131_072, 153_600, 200_001]);
+            (Just(n), prop_oneof![60 => crate::gen::spi_buf(n as u16).prop_map(|b| b as u32), 1 => big])
+        })
         .prop_flat_map(move |(n, buf)| {
             let cap = buf as u32 / n as u32;
             let cmd = (any::<u8>(), proptest::collection::vec(any::<u8>(), 0..=20)).prop_map(|(cmd, args)| SpiOp::Cmd { cmd, args });
-            let px = (count_strategy(cap), any::<u32>()).prop_map(|(count, seed)| SpiOp::Pixels { count, seed });
+            let px = (count_strategy(cap), any::<u32>(), 0u8..5).prop_map(|(count, seed, nf)| if nf == 0 { SpiOp::PixelsNonFused { count, seed } } else { SpiOp::Pixels { count, seed } });
             // pixels from a tiny per-sequence palette: the same pattern is repeated by several ops
             let pal = prop_oneof![
                 2 => proptest::collection::vec(any::<u8>(), n as usize),
@@ -210,7 +251,7 @@ pub fn strategy(exclude_zero_repeat: bool) -> BoxedStrategy<SpiCase> {
                 pixel,
                 count: if exclude_zero_repeat && count == 0 { 1 } else { count },
             });
-            (Just(n), Just(buf), proptest::collection::vec(prop_oneof![2 => cmd, 3 => px, 3 => rp], 1..=8))
+            (Just(n), Just(buf), proptest::collection::vec(prop_oneof![2 => cmd, 3 => px, 3 => rp], 1..=(if buf > 60_000 { 3 } else { 8 })))
         })
         .prop_map(|(n, buf, ops)| SpiCase { n, buf, ops })
         .boxed()
@@ -241,7 +282,7 @@ pub fn run(ctx: &Ctx) -> Report {
     ];
     let mut sec = Section::new(
         &format!("spi-sequences[{}]", ctx.variant),
-        "pixel size N in 1..=4, buffer length in {N, N+1, 2N-1, 2N, 2N+1, .. 64, .. 600} (pre-poisoned), 1..6 ops of send_command(cmd, 0..=20 args) / send_pixels / send_repeated_pixel with counts in {0, 1, cap-1, cap, cap+1, k*cap, k*cap+-1, random}; oracle: concatenated (dc, byte) stream equals instruction(dc low) + params + pixel bytes (dc high) exactly; transactions <= floor(b/usable)+1 per burst (plus 2 for the preceding command) and <= 2 + parameter count for a command; non-trivial = count 0, or count > capacity, or count a multiple of capacity, or buffer not a multiple of N",
+        "pixel size N in 1..=4, buffer length in {N, N+1, 2N-1, 2N, 2N+1, .. 64, .. 600} and occasionally frame-sized (65535 .. 200001 bytes), pre-poisoned, 1..6 ops of send_command(cmd, 0..=20 args) / send_pixels / send_repeated_pixel with counts in {0, 1, cap-1, cap, cap+1, k*cap, k*cap+-1, random}; oracle: concatenated (dc, byte) stream equals instruction(dc low) + params + pixel bytes (dc high) exactly; transactions <= floor(b/usable)+1 per burst (plus 2 for the preceding command) and <= 2 + parameter count for a command; non-trivial = count 0, or count > capacity, or count a multiple of capacity, or buffer not a multiple of N",
     );
     run_generated(&mut sec, ctx.seed, ctx.cases(500_000, 12_000_000), ctx.workers, || strategy(false), check, sig);
     rep.sections.push(sec);
